@@ -226,18 +226,31 @@ VerdictWith(r, G, M) ==
                     ELSE IF HasWitness(r) THEN "unsatisfiable_but_witness_exists"
                     ELSE "satisfiable_without_witness"
 
+\* the verdict once the formula is known to be well formed, under the binding r.grp / r.idx
+VerdictBound(r) ==
+    IF Cardinality(Keys(r)) # r.nvars THEN "names_not_distinct"
+    ELSE LET G == Groups(r)
+             Ms == Matchings(r, G)
+         IN  IF Ms = {} \/ ~Covered(r, G) THEN "variables_differ_from_documented"
+             ELSE IF \E M \in Ms : VerdictWith(r, G, M) = "ok" THEN "ok"
+             ELSE VerdictWith(r, G, CHOOSE M \in Ms : TRUE)
+
+\* Several bindings of identifiers to named variables are recorded: the primary one through the formula's
+\* variable groups (grp, idx) and alternatives (alt) through the variable names (non-digit skeleton of the
+\* name / its numbers) or through names for some families of names and groups for the others.  The property
+\* speaks about named variables, not about how the implementation groups them internally: the formula is
+\* right if it is right under one of the recorded bindings.
 Verdict(r) ==
     IF r.outcome = "ValueError"
     THEN (IF MayRefuse(r) \/ MustRefuse(r) THEN "ok" ELSE "unexpected_ValueError")
     ELSE IF r.outcome # "ok" THEN "unexpected_" \o r.outcome
     ELSE IF MustRefuse(r) THEN "should_have_been_refused"
     ELSE IF ~WF(r) THEN "literal_out_of_range"
-    ELSE IF Cardinality(Keys(r)) # r.nvars THEN "names_not_distinct"
-    ELSE LET G == Groups(r)
-             Ms == Matchings(r, G)
-         IN  IF Ms = {} \/ ~Covered(r, G) THEN "variables_differ_from_documented"
-             ELSE IF \E M \in Ms : VerdictWith(r, G, M) = "ok" THEN "ok"
-             ELSE VerdictWith(r, G, CHOOSE M \in Ms : TRUE)
+    ELSE LET v1 == VerdictBound(r)
+         IN  IF v1 = "ok" \/ ~Has(r, "alt") THEN v1
+             ELSE IF \E k \in 1..Len(r.alt) :
+                        VerdictBound([r EXCEPT !.grp = r.alt[k].grp, !.idx = r.alt[k].idx]) = "ok" THEN "ok"
+             ELSE v1
 
 Init == pos = 1
 Next == /\ pos <= Len(Trace)
